@@ -43,6 +43,19 @@ def operand(dom, shape, kind, n):
             return as_matrix([[A[i, j] + (1 if i == j else 0) for j in range(shape[1])]
                               for i in range(shape[0])])
         return as_vector([A[i] * f for i in range(shape[0])])
+    if kind.startswith("sparse") and len(shape) == 2:
+        # list tensor with literal (structural) zeros / ones at pattern-dependent positions: the lowering of
+        # det/inv/cofac sees Zero entries and may simplify around them
+        n = shape[0]
+        zeros = {
+            "sparse_lead": {(0, 0), (1, 2 % n)},                       # leading entry of the expansion row
+            "sparse_mid": {(0, 1 % n), (n - 1, 0)},                      # middle of the expansion row
+            "sparse_row1": {(1, 0), (1, 1 % n), (0, n - 1)},             # leading entries of the second row
+            "sparse_upper": {(i, j) for i in range(n) for j in range(n) if i > j},
+            "sparse_two": {(0, 0), (0, 2 % n), (2 % n, 1 % n)},          # two zeros in the expansion row
+        }[kind]
+        return as_matrix([[0 if (i, j) in zeros else (A[i, j] + (1 if (i + j) % 3 == 0 else 0))
+                           for j in range(n)] for i in range(n)])
     if kind == "transposed" and len(shape) == 2 and shape[0] == shape[1]:
         return A.T + B
     raise ValueError(kind)
@@ -203,6 +216,14 @@ def specs(tier):
             if thorough:
                 for op in ("inv", "det", "dev", "cofac"):
                     add(op=op, shape=(3, 3), kinds=(kind,), complex=cx, timeout=60)
+        for kind in ("sparse_lead", "sparse_mid", "sparse_row1", "sparse_upper", "sparse_two"):
+            for op in ("det", "inv", "cofac"):
+                add(op=op, shape=(3, 3), kinds=(kind,), complex=cx, timeout=60)
+            if not cx or thorough:
+                add(op="det", shape=(4, 4), kinds=(kind,), complex=cx, timeout=90)
+            if thorough:
+                add(op="inv", shape=(4, 4), kinds=(kind,), complex=cx, timeout=180)
+                add(op="dev", shape=(3, 3), kinds=(kind,), complex=cx)
         for kind in ("sum", "list"):
             add(op="inner", shape=(2, 2), shape2=(2, 2), kinds=(kind, "terminal"), complex=cx)
             add(op="outer", shape=(2,), shape2=(2,), kinds=("terminal", kind), complex=cx)
@@ -228,7 +249,7 @@ def main():
         PROP, tier, "translation_validation", results, t0,
         functions=["ufl.algorithms.apply_algebra_lowering.apply_algebra_lowering (LowerCompoundAlgebra)",
                    "ufl.compound_expressions.{determinant,inverse,cofactor,deviatoric,adj,cross,perp,pseudo_*}_expr"],
-        bounds={"square": "n <= 3 quick, n <= 4 thorough (det 4x4 in both)",
+        bounds={"square": "n <= 3 quick, n <= 4 thorough (det 4x4 in both)", "sparse operands": "5 literal-zero patterns in list tensors for det/inv/cofac 3x3 and det 4x4 (inv 4x4 thorough)",
                 "rectangular": "2x1, 3x1, 3x2 (real)", "rank": "<= 3 for dot/inner",
                 "operand kinds": "terminal, sum, scaled, list tensor, transposed", "modes": "real and complex",
                 "outside": "larger shapes; operands with free indices; non-affine derivative terms"},
